@@ -26,8 +26,8 @@ CFG = {
                   "(writeToContext and writeToUDPAddrPort) run against the one model; a real *net.UDPConn is not exercised. Not built: S/T tie of the six CAS functions (loops are outside the "
                   "translator's subset); the bit constants are compared at run time.",
     "components": [
-        {"component": "shared", "session_start": "new", "trivial_regex": r"^(skip|bad-.*)$", "shrink_s": 30},
-        {"component": "writeabort", "trivial_regex": r"^(bad-.*)$", "timeout_quick": 300, "timeout_thorough": 1500, "shrink_s": 5},
+        {"component": "shared", "require_stats": {"shared.ops.abort_with_open_sibling": 10, "shared.ops.write_through_WriteToAddrPort": 5, "shared.sessions.refusing_connection_boundary": 5}, "session_start": "new", "trivial_regex": r"^(skip|bad-.*)$", "shrink_s": 30},
+        {"component": "writeabort", "require_stats": {"writeabort.ev.socket_WriteToAddrPort": 50, "writeabort.shape.both_write_paths_in_one_run": 20, "writeabort.hist.with_arming": 50}, "trivial_regex": r"^(bad-.*)$", "timeout_quick": 300, "timeout_thorough": 1500, "shrink_s": 5},
     ],
     "rule": "shared: boundary sessions (incl. 10 per kind with SetReadDeadline/SetWriteDeadline/SetDeadline past|zero and the abortIO "
             "sequence on one handle while siblings stay open) + random sessions (quick 240, thorough 28000) of "
